@@ -38,18 +38,20 @@ import itertools
 import json
 import os
 import random
+import re
 import sys
 from datetime import datetime, timedelta
 
-from . import common
+from . import c19, common
 from .common import Check, sx
 from .evutil import BASE, dt, mk_event, pulse_us, us_of_dt, us_of_td
 from .theap import (ERRCODE, ERRNAME, EVENT_LIST, Built, R, Rec, Table, _model_reach, _shape_str, inst, is_cell,
                     refs_in, relcell, shape_model, shrink_case, tstr)
 
 DRIVER = "THEAP_C16"
-MODEL_FILES = ["Model/MemHeap", "Model/TransformHeap", "Model/DictHeap", "Model/Group", "Model/GroupHeap"]
-MODEL_TARGETS = ["Model/GroupHeap.vo"]
+MODEL_FILES = ["Model/MemHeap", "Model/TransformHeap", "Model/DictHeap", "Model/Group", "Model/GroupHeap",
+               "Model/ClassifyBase", "Model/Classify", "Model/ClassifyHeap"]
+MODEL_TARGETS = ["Model/GroupHeap.vo", "Model/ClassifyHeap.vo"]
 SUBEVENTS = "subevents"
 
 RULE = ("per function a deterministic corpus (small layouts over a data alphabet with missing keys, list values incl. [] "
@@ -78,11 +80,17 @@ RULE = ("per function a deterministic corpus (small layouts over a data alphabet
 
 class Fn:
     """one function of a group: call = run the implementation; encode = the call on the wire; expect (before the call) /
-    oracle (after it) = the sharing statement; gen = the case generator"""
+    oracle (after it) = the sharing statement; gen = the case generator.  Optional: codec = how values / dicts / lists
+    travel (CaseLabels: C16; Codec19: C19); setup(b, case, env) = further arguments built from the spec (rules, category
+    list objects: b.extra_roots are registered as input objects, b.guard() renders what is not on the heap);
+    owned(keys_before) = the keys of an event's data dict the function may write (None: it may write nothing);
+    inplace = the model answers an exception with the heap it reached"""
 
-    def __init__(self, name, callno, prop, nargs, module, call, encode, expect, oracle, gen, argdesc=""):
+    def __init__(self, name, callno, prop, nargs, module, call, encode, expect, oracle, gen, argdesc="",
+                 codec=None, setup=None, owned=None, inplace=False):
         self.name, self.callno, self.prop, self.nargs, self.module = name, callno, prop, nargs, module
         self.call, self.encode, self.expect, self.oracle, self.gen, self.argdesc = call, encode, expect, oracle, gen, argdesc
+        self.codec, self.setup, self.owned, self.inplace = codec, setup, owned, inplace
 
 
 FUNCS = {}
@@ -113,6 +121,9 @@ def freeze(x):
 
 
 class CaseLabels:
+    """C16 codec: key strings -> 100.., values -> one label per ==/hash class; every dict is a skeleton cell, every list
+    inside data a cell labelled by its value class"""
+
     def __init__(self):
         self.keys, self.vals = {}, {}
 
@@ -133,6 +144,43 @@ class CaseLabels:
             if i == n:
                 return repr(list(s) if isinstance(s, tuple) and not (s and s[0] == "\0dict") else s)
         return "<value label %s>" % n
+
+    def note_event(self, e):
+        pass
+
+    def none_cell(self):
+        return [1, self.v(None), []]
+
+    def entries(self, o):
+        return [[self.k(k), 0] if is_cell(v) else [self.k(k), 1, self.v(v)] for k, v in dict.items(o)]
+
+    def cell(self, o, ks):
+        """the cell of a dict or of a list that is not an event list"""
+        return [2, self.entries(o), ks] if isinstance(o, dict) else [1, self.v(o), ks]
+
+    def differs(self, cell, o, path):
+        """None, or how the model cell differs from the dict / list o (members are compared by the caller)"""
+        if isinstance(o, dict):
+            if cell[0] != 2:
+                return "%s: model cell %s is not a dict, the implementation has the dict %r" % (path, relcell(cell), o)
+            mine = self.entries(o)
+            if cell[1] != mine:
+                return "%s: model dict %s, implementation dict %s (%r)" % (path, self.cellstr(cell), self.cellstr([2, mine, []]), o)
+            return None
+        if cell[0] != 1:
+            return "%s: model cell %s is not a list, the implementation has a list" % (path, self.cellstr(cell))
+        if cell[1] != EVENT_LIST:          # a list VALUE of event data: its == class
+            mine = self.v(o)
+            if cell[1] != mine:
+                return "%s: model list label %d (%s), implementation value %r (label %d)" % (
+                    path, cell[1], self.val_name(cell[1]), o, mine)
+        return None
+
+    def cellstr(self, c):
+        c = relcell(c)
+        if c and c[0] == 2:
+            return "{%s}" % ", ".join("%r: %s" % (self.key_name(e[0]), self.val_name(e[2]) if e[1] == 1 else "<object>") for e in c[1])
+        return str(c)
 
 
 # ---------------------------------------------------------------------------
@@ -542,6 +590,9 @@ def build(case, env):
         if o is not None:
             b.hint.setdefault(id(o), "E%d" % i)
     b.hint[id(None)] = "None"
+    b.extra_roots, b.guard = [], None
+    if fn.setup:
+        fn.setup(b, case, env)
     return b
 
 
@@ -588,7 +639,7 @@ class Walker:
 
 def register(b, wk):
     tb = Table()
-    stack = [(a, n) for a, n in zip(b.args, b.argnames)][::-1]
+    stack = ([(a, n) for a, n in zip(b.args, b.argnames)] + list(getattr(b, "extra_roots", [])))[::-1]
     while stack:
         o, name = stack.pop()
         if tb.loc(o) is not None:
@@ -599,24 +650,21 @@ def register(b, wk):
     return tb
 
 
-def dict_entries(o, lab):
-    return [[lab.k(k), 0] if is_cell(v) else [lab.k(k), 1, lab.v(v)] for k, v in dict.items(o)]
-
-
 def encode_heap(tb, wk, lab):
+    for o in tb.objs:
+        if isinstance(o, wk.Event):
+            lab.note_event(o)
     heap = []
     for o in tb.objs:
         ks = [tb.loc(k) for k in wk.kids(o)]
         if o is None:
-            heap.append([1, lab.v(None), []])
+            heap.append(lab.none_cell())
         elif isinstance(o, wk.Event):
             heap.append([0, common.opt(dict.get(o, "id")), us_of_dt(o["timestamp"]), us_of_td(o.duration), ks])
-        elif isinstance(o, dict):
-            heap.append([2, dict_entries(o, lab), ks])
         elif id(o) in wk.ev:
             heap.append([1, EVENT_LIST, ks])
         else:
-            heap.append([1, lab.v(o), ks])
+            heap.append(lab.cell(o, ks))
     return heap
 
 
@@ -661,6 +709,11 @@ def alias_features(b, tb, wk):
         f.append("shared-data")
     if any(len(ps) > 1 and not any(ev for _, ev in ps) for ps in parents.values()):
         f.append("shared-list-value")
+    cats = getattr(b, "cats", [])
+    if len({id(c) for c in cats}) < len(cats):
+        f.append("one-category-list-in-two-rules")
+    if any(tb.loc(c) in parents for c in cats):
+        f.append("category-list-is-a-data-value")
     return f
 
 
@@ -671,32 +724,32 @@ def _f(env, fn):
     return getattr(env.mod(fn.module), fn.name)
 
 
-def call_1(env, fn, args, p):
-    return _f(env, fn)(args[0])
+def call_1(env, fn, b):
+    return _f(env, fn)(b.args[0])
 
 
 def enc_1(fn, r, lab):
     return [fn.callno, r.heap, r.arg_locs[0]]
 
 
-def call_limit(env, fn, args, p):
-    return _f(env, fn)(args[0], p["count"])
+def call_limit(env, fn, b):
+    return _f(env, fn)(b.args[0], b.params["count"])
 
 
 def enc_limit(fn, r, lab):
     return [fn.callno, r.heap, r.arg_locs[0], r.case["params"]["count"]]
 
 
-def call_2(env, fn, args, p):
-    return _f(env, fn)(args[0], args[1])
+def call_2(env, fn, b):
+    return _f(env, fn)(b.args[0], b.args[1])
 
 
 def enc_2(fn, r, lab):
     return [fn.callno, r.heap, r.arg_locs[0], r.arg_locs[1]]
 
 
-def call_filter(env, fn, args, p):
-    return _f(env, fn)(args[0], p["key"], p["vals"], exclude=p["exclude"])
+def call_filter(env, fn, b):
+    return _f(env, fn)(b.args[0], b.params["key"], b.params["vals"], exclude=b.params["exclude"])
 
 
 def enc_filter(fn, r, lab):
@@ -704,16 +757,16 @@ def enc_filter(fn, r, lab):
     return [fn.callno, r.heap, r.arg_locs[0], lab.k(p["key"]), [lab.v(v) for v in p["vals"]], 1 if p["exclude"] else 0]
 
 
-def call_merge(env, fn, args, p):
-    return _f(env, fn)(args[0], p["keys"])
+def call_merge(env, fn, b):
+    return _f(env, fn)(b.args[0], b.params["keys"])
 
 
 def enc_merge(fn, r, lab):
     return [fn.callno, r.heap, r.arg_locs[0], [lab.k(k) for k in r.case["params"]["keys"]]]
 
 
-def call_chunk(env, fn, args, p):
-    return _f(env, fn)(args[0], p["key"], p["pulsetime"])
+def call_chunk(env, fn, b):
+    return _f(env, fn)(b.args[0], b.params["key"], b.params["pulsetime"])
 
 
 def enc_chunk(fn, r, lab):
@@ -917,12 +970,425 @@ register_fn(Fn("filter_keyvals", 14, "C16", 1, _F, call_filter, enc_filter, ex_f
 register_fn(Fn("merge_events_by_keys", 15, "C16", 1, _M, call_merge, enc_merge, ex_merge, or_merge, gen_merge, "events, keys"))
 register_fn(Fn("chunk_events_by_key", 16, "C16", 1, _C, call_chunk, enc_chunk, ex_chunk, or_chunk, gen_chunk, "events, key, pulsetime"))
 register_fn(Fn("sum_durations", 17, "C16", 1, _S, call_1, enc_1, ex_none, or_sum, gen_simple, "events"))
+# ===========================================================================
+# group C19: categorize, tag, split_url_events, simplify_string (Model/ClassifyHeap.v, calls 20..23)
+#
+# Values travel with harness/c19.py's label tables (c19.Tab): a string value is the scalar label 2*s, any other
+# immutable value 2*l+1; a flat list of strings (a rule's category list object, a `$category` / `$tags` value) is the
+# cell (2 ((s 1 0) ...) ()); the data dict of an Event is a skeleton cell; any other nested list / dict inside data is
+# the opaque cell (1 l (kids)) with l its c19 "other" label.  The engine tables (re, urlparse, www, the three
+# substitutions) and the rulespecs are c19.wire_case's, built over the same Tab.
+# params: categorize {"classes": [[category, ruledict], ...]}  category = a list of strings (a list object of its own) or
+#         {"$ref": k} = THE object nested[k] (one list object serving several rules and / or being a value in event data);
+#         tag {"classes": [[tag string, ruledict], ...]};  split_url_events {};  simplify_string {"key": k}
+
+class Codec19:
+    def __init__(self):
+        self.tab = c19.Tab()
+        self.datas, self.keep = set(), []
+
+    def note_event(self, e):
+        d = dict.get(e, "data")
+        if isinstance(d, dict) and id(d) not in self.datas:
+            self.datas.add(id(d))
+            self.keep.append(d)
+
+    def k(self, key):
+        return self.tab.k(key)
+
+    def scalar(self, v):
+        return 2 * self.tab.s(v) if type(v) is str else 2 * self.tab.val(v)[1] + 1
+
+    @staticmethod
+    def strlist(o):
+        return type(o) is list and all(type(x) is str for x in o)
+
+    def none_cell(self):
+        return [1, self.tab.val(None)[1], []]
+
+    def entries(self, o):
+        return [[self.tab.k(k), 0] if is_cell(v) else [self.tab.k(k), 1, self.scalar(v)] for k, v in dict.items(o)]
+
+    def cell(self, o, ks):
+        if isinstance(o, dict) and id(o) in self.datas:
+            return [2, self.entries(o), ks]
+        if self.strlist(o):
+            return [2, [[self.tab.s(x), 1, 0] for x in o], []]
+        return [1, self.tab.val(o)[1], ks]
+
+    def differs(self, cell, o, path):
+        if cell[0] == 1 and cell[1] == EVENT_LIST and type(o) is list:
+            return None                    # an event list (argument / result): members are compared by the caller
+        mine = self.cell(o, None)
+        if cell[0] != mine[0] or cell[1] != mine[1]:
+            return "%s: model cell %s, the implementation has %r (as a cell: %s)" % (path, self.cellstr(cell), o, self.cellstr(mine))
+        return None
+
+    def _sc(self, v):
+        try:
+            return repr(self.tab.strs[v // 2]) if v % 2 == 0 else repr(self.tab.others[(v - 1) // 2])
+        except Exception:  # noqa: BLE001
+            return "<scalar label %s>" % v
+
+    def cellstr(self, c):
+        c = relcell(c)
+        if not c or c[0] != 2:
+            return str(c)
+        as_dict = "{%s}" % ", ".join("%r: %s" % (self.tab.keyname.get(e[0], "<key %s>" % e[0]), self._sc(e[2]) if e[1] == 1 else "<object>") for e in c[1])
+        if c[1] and all(e[1:] == [1, 0] and 0 <= e[0] < len(self.tab.strs) for e in c[1]):
+            return "the list of strings %r (or the dict %s)" % ([self.tab.strs[e[0]] for e in c[1]], as_dict)
+        return as_dict
+
+
+def setup_classes(b, case, env):
+    cl = env.mod("aw_transform.classify")
+    cat = case["which"] == "categorize"
+    b.cats, classes = [], []
+    for j, (c, rd) in enumerate(case["params"]["classes"]):
+        obj = c
+        if cat:
+            obj = inst(c, b.nested)
+            b.cats.append(obj)
+            b.hint.setdefault(id(obj), "C%d" % j)
+            b.extra_roots.append((obj, "C%d" % j))
+        classes.append((obj, cl.Rule(copy.deepcopy(rd))))
+    b.classes = classes
+    b.guard = lambda: [len(classes)] + [
+        [id(c) if cat else repr(c), id(rule), repr(rule.select_keys), repr(rule.ignore_case),
+         [rule.regex.pattern, rule.regex.flags] if rule.regex else None] for c, rule in classes]
+
+
+def call_classes(env, fn, b):
+    return getattr(env.mod(fn.module), fn.name)(b.args[0], b.classes)
+
+
+def call_key(env, fn, b):
+    return _f(env, fn)(b.args[0], key=b.params["key"])
+
+
+def _c19_events(r):
+    """the data of every registered Event, once per dict object, in the shape c19.wire_case reads"""
+    seen, out = set(), []
+    for o in r.tb.objs:
+        if isinstance(o, r.wk.Event):
+            d = dict.get(o, "data")
+            if isinstance(d, dict) and id(d) not in seen:
+                seen.add(id(d))
+                out.append((None, 0, 0, list(dict.items(d))))
+    return out
+
+
+def enc_classes(fn, r, lab):
+    kind = "categorize" if r.which == "categorize" else "tag"
+    cls = [(list(c) if kind == "categorize" else c, rd, None)
+           for (c, _), (_, rd) in zip(r.built.classes, r.case["params"]["classes"])]
+    w = c19.wire_case({"kind": kind, "events": _c19_events(r), "classes": cls}, lab.tab)
+    if kind == "categorize":
+        return [fn.callno, r.heap, r.arg_locs[0], w[1], [[r.tb.loc(c), x[1]] for (c, _), x in zip(r.built.classes, w[3])]]
+    return [fn.callno, r.heap, r.arg_locs[0], w[1], w[3]]
+
+
+def enc_split(fn, r, lab):
+    w = c19.wire_case({"kind": "split", "events": _c19_events(r)}, lab.tab)
+    return [fn.callno, r.heap, r.arg_locs[0], w[1], w[2]]
+
+
+def enc_simplify(fn, r, lab):
+    # the three substitutions on every string under the key and on everything they produce (an Event that is twice in
+    # the list, or two Events sharing one data dict, are rewritten again): closed under the substitutions
+    key = r.case["params"]["key"]
+    todo = [dict(items).get(key) for _, _, _, items in _c19_events(r)]
+    todo, done, rows = [x for x in todo if type(x) is str], set(), []
+    while todo:
+        x = todo.pop()
+        if x in done:
+            continue
+        done.add(x)
+        pfd = c19.h_subs(x)
+        rows.append([lab.tab.s(x)] + [lab.tab.s(y) for y in pfd])
+        todo.extend(pfd)
+    return [fn.callno, r.heap, r.arg_locs[0], rows, lab.tab.k(key)]
+
+
+def ex_annot(r, env):
+    evs = list(r.built.args[0])
+    datas = []
+    for e in evs:
+        d = dict.get(e, "data")
+        if not any(d is x for x in datas):
+            datas.append(d)
+    return {"events": evs, "datas": datas, "cats": list(getattr(r.built, "cats", []))}
+
+
+def _same_events(r, leaves):
+    leaves.extend(r.expect["events"])
+    return _new_list(r, r.out) or _same_objs(r, r.out, r.expect["events"], "the returned list")
+
+
+def or_categorize(r, env, leaves):
+    bad = _same_events(r, leaves)
+    if bad:
+        return bad
+    for d in r.expect["datas"]:
+        if "$category" not in d:
+            return "%s has no '$category' after the call" % _nm(r, d)
+        c = d["$category"]
+        if any(c is k for k in r.expect["cats"]):
+            continue
+        if r.tb.loc(c) is not None:
+            return "%s['$category'] IS the caller's object %s, which is not a category list of the rules" % (_nm(r, d), _nm(r, c))
+        if type(c) is not list or c != ["Uncategorized"]:
+            return ("%s['$category'] is %r: neither (by identity) one of the category list objects of the rules nor a new "
+                    "['Uncategorized']" % (_nm(r, d), c))
+    return None
+
+
+def or_tag(r, env, leaves):
+    bad = _same_events(r, leaves)
+    if bad:
+        return bad
+    seen = []
+    for d in r.expect["datas"]:
+        if "$tags" not in d:
+            return "%s has no '$tags' after the call" % _nm(r, d)
+        t = d["$tags"]
+        if type(t) is not list:
+            return "%s['$tags'] is a %s" % (_nm(r, d), type(t).__name__)
+        if r.tb.loc(t) is not None:
+            return "%s['$tags'] IS the caller's own object %s (expected: a new list)" % (_nm(r, d), _nm(r, t))
+        for w, x in seen:
+            if x is t:
+                return "%s['$tags'] and %s['$tags'] are one list object (expected: a new list per write)" % (w, _nm(r, d))
+        seen.append((_nm(r, d), t))
+    return None
+
+
+def or_split(r, env, leaves):
+    leaves.append(r.built.args[0])
+    return None if r.out is r.built.args[0] else "the result is %s, not the argument list object itself" % _nm(r, r.out)
+
+
+def or_simplify(r, env, leaves):
+    return _new_list(r, r.out)         # and nothing reachable from it is an input object: no leaves
+
+
+# -- generators
+
+D19 = [{"app": "Firefox", "title": "FIREFOX - Mozilla"},
+       {"title": "Visual Studio Code", "app": "code"},
+       {"$category": "Firefox", "app": "x"},          # a string under the owned key: a regex matches it before the first write only
+       {"$category": ["Work"], "$tags": ["code"], "title": "a.b"},
+       {},
+       {"n": 1, "lst": ["Firefox"], "none": None, "f": 1.5, "b": True},
+       {"app": "x", "$category": 7, "nested": {"title": "Firefox", "l": ["code"]}, "$tags": "fire tag"},
+       {"$tags": ["Work"], "title": "x", "$category": ["Work", "Programming"], "lst": ["Work"]}]
+RULES_C = [
+    [[["Work"], {"regex": "fire", "ignore_case": True}], [["Work", "Programming"], {"regex": "code"}], [["Media"], {"regex": "zzz"}]],
+    [[["A", "B"], {"regex": "Fire"}], [["A", "B"], {"regex": "x"}], [["A", "X"], {"regex": "."}]],
+    [[["Browser"], {"regex": "Firefox"}]],
+    [],
+    [[["T"], {"regex": ".", "select_keys": ["title"]}], [[], {"regex": "."}], [["T"], {"regex": "code", "select_keys": ["app", "missing"]}]],
+    [[["Work"], {"regex": "Work|x"}], [["Work", "Programming"], {"regex": "a\\.b", "select_keys": ["title", "$category"]}],
+     [["Work"], {"regex": None}]],
+]
+RULES_T = [[["/".join(c), rd] for c, rd in rs] for rs in RULES_C]
+CCONF = [dict(), dict(share_data=True), dict(share_lists="all", share_cats="data"), dict(dups=[(0, 0, 1)]),
+         dict(share_cats="rules"), dict(share_data=True, share_lists="all", share_cats="data", dups=[(0, 0, 99)]),
+         dict(share_lists="first2", share_cats="rules", dups=[(0, 1, 0)]), dict(share_data=True, dups=[(0, 0, 2)], noid=(0, 2))]
+TRI19 = [(2, 2, 0), (6, 6, 6), (3, 7, 3), (7, 7, 5), (0, 1, 0), (2, 6, 2), (5, 3, 7), (4, 4, 1)]
+
+
+def mk_case19(which, rows, params=None, share_cats=None, **al):
+    """mk_case + share_cats: equal-content category lists of the rules become ONE list object ("rules"), which is also
+    THE object of the equal-content list values that share_lists put into the nested pool ("data")"""
+    c = mk_case(which, [rows], params, **al)
+    if which == "categorize" and share_cats:
+        table = {}
+        if share_cats == "data":
+            table = {json.dumps(t): k for k, t in enumerate(c["nested"]) if Codec19.strlist(t)}
+        for cls in c["params"]["classes"]:
+            if type(cls[0]) is list:
+                key = json.dumps(cls[0])
+                if key not in table:
+                    c["nested"].append(cls[0])
+                    table[key] = len(c["nested"]) - 1
+                cls[0] = R(table[key])
+    return c
+
+
+def rows19(tpls, unit=MS):
+    return [[j * unit, (j + 1) * unit, copy.deepcopy(t)] for j, t in enumerate(tpls)]
+
+
+def gen_classes(which, rng, n_random):
+    rules = RULES_C if which == "categorize" else RULES_T
+    k = 0
+    seqs = [()] + [p for n in (1, 2) for p in itertools.product(range(len(D19)), repeat=n)]
+    for idxs in seqs:
+        for rs in (rules if len(idxs) <= 1 else rules[k % 2::2]):
+            k += 1
+            yield mk_case19(which, rows19([D19[i] for i in idxs]), {"classes": rs}, **CCONF[k % len(CCONF)])
+    for idxs in TRI19:
+        for rs in rules:
+            k += 1
+            for cf in CCONF[k % 2::2]:
+                yield mk_case19(which, rows19([D19[i] for i in idxs]), {"classes": rs}, **cf)
+    # every string of the pools that some substitution rewrites, under keys the function does not own
+    for i, t in enumerate(c19.CANARIES):
+        tpl = {"app": t, "title": t, "name": t, "nested": {"title": t, "app": [t]}, "lst": [t]}
+        rs = [[["A"] if which == "categorize" else "t1", {"regex": ".", "select_keys": ["title"]}],
+              [["A", "B"] if which == "categorize" else "t2", {"regex": re.escape(t[:3]), "ignore_case": True}]]
+        yield mk_case19(which, rows19([tpl, tpl]), {"classes": rs}, **CCONF[i % len(CCONF)])
+    for _ in range(n_random):
+        yield rand_case19(which, rng)
+
+
+def url_ok(v):
+    """a url value the model sees as the harness' tables name it: not a member-less container other than a list of strings"""
+    return not is_cell(v) or Codec19.strlist(v) or any(is_cell(x) for x in (v.values() if isinstance(v, dict) else v))
+
+
+def _jsonable(v):
+    try:
+        json.dumps(v)
+        return True
+    except TypeError:
+        return False
+
+
+URLS19 = [u for u in c19.URLS if _jsonable(u) and url_ok(u)] + [[["a"]], {"k": ["http://www.a.b"]}]
+OKURL = "http://www.ok.org/x"
+SCONF = [dict(), dict(share_data=True), dict(dups=[(0, 0, 1)]), dict(share_lists="all"),
+         dict(share_data=True, share_lists="all", dups=[(0, 1, 0)]), dict(dups=[(0, 0, 99), (0, 1, 1)], noid=(1,))]
+
+
+def gen_split(which, rng, n_random):
+    k = 0
+    for u in URLS19:
+        lays = [[{"url": u, "title": "t"}],
+                [{"$domain": "old", "title": "t", "url": u, "$identifier": 7}, {"title": "no url here"}, {"url": OKURL}],
+                # a url that makes urlparse raise AFTER an earlier event was annotated; a pre-existing `$domain` list object
+                [{"url": OKURL, "$domain": ["old"]}, {"url": u}, {"url": "https://example.com", "lst": ["old"]}],
+                [{"url": u, "$path": ["p"]}, {"url": u, "$path": ["p"]}]]
+        for lay in lays:
+            for _ in range(2):
+                k += 1
+                yield mk_case19(which, rows19(lay), {}, **SCONF[k % len(SCONF)])
+    for i, t in enumerate(c19.CANARIES):
+        tpl = {"app": t, "title": t, "name": t, "nested": {"title": t, "app": [t]}, "lst": [t]}
+        yield mk_case19(which, rows19([dict(tpl, url="http://www.example.com/(1)%20*;p?FPS:%201#f"), dict([("url", t)] + list(tpl.items()))]),
+                        {}, **SCONF[i % len(SCONF)])
+    yield mk_case19(which, [], {})
+    yield mk_case19(which, rows19([{}, {"URL": "http://www.a.b"}]), {}, share_data=True, dups=[(0, 0, 1)])
+    for _ in range(n_random):
+        yield rand_case19(which, rng)
+
+
+def gen_simplify(which, rng, n_random):
+    k = 0
+    for i, t in enumerate(c19.TITLES):
+        for key in ("title", "name"):
+            for with_app in (True, False):
+                items = ([("app", "a")] if with_app else []) + [(key, t), ("other", "(1) ● keep FPS: 1.0"), ("lst", ["(1) x"])]
+                if i % 2:
+                    items.reverse()
+                for _ in range(2):
+                    k += 1
+                    # twice: alone, and next to an event of equal data (one dict object under share_data: rewritten twice)
+                    lay = [dict(items)] if k % 2 else [dict(items), {"title": "(2) b", "name": "* n", "app": "x"}, dict(items)]
+                    yield mk_case19(which, rows19(lay), {"key": key}, **SCONF[k % len(SCONF)])
+    # rewritten again and again: the same dict / the same Event several times
+    for t in ("(1) (2) (3) x", "● ● * x", "(3) * FPS: 1 FPS: 2.5", "(1) ● (2) * (3) y", "* (1) z"):
+        for key in ("title", "name"):
+            for cf in (dict(share_data=True), dict(dups=[(0, 0, 1), (0, 0, 1)]), dict(share_data=True, dups=[(0, 0, 99)])):
+                yield mk_case19(which, rows19([{"app": "a", key: t}, {"app": "a", key: t}, {"app": "a", key: t}]), {"key": key}, **cf)
+    # KeyError / TypeError in the middle: the caller's objects are untouched then too
+    for badv in ("<missing>", 5, None, ["(1) a"], {"x": 1}, {"x": ["(1) a"]}, True, 1.5):
+        mid = {"app": "b"} if badv == "<missing>" else {"title": badv, "app": "b"}
+        for lay in ([mid], [{"title": "(1) a", "app": "x"}, mid, {"title": "(2) c"}], [{"title": "(1) a", "lst": ["l"]}, mid]):
+            for cf in (dict(), dict(share_data=True, share_lists="all", dups=[(0, 0, 1)])):
+                yield mk_case19(which, rows19(lay), {"key": "title"}, **cf)
+    for idxs in TRI19 + [(0,), (1, 1), ()]:
+        for key in ("title", "app", "name"):
+            k += 1
+            yield mk_case19(which, rows19([D19[i] for i in idxs]), {"key": key}, **SCONF[k % len(SCONF)])
+    for _ in range(n_random):
+        yield rand_case19(which, rng)
+
+
+def rand_case19(which, rng):
+    n = rng.choice([0, 1, 2, 2, 3, 3, 4, 5])
+    tpls, protos = [], []
+    for _ in range(n):
+        if protos and rng.random() < 0.35:
+            tpls.append(copy.deepcopy(rng.choice(protos)))          # equal data: ONE dict object under share_data
+            continue
+        if which == "split_url_events":
+            items = c19.rand_data(rng, ("app", "title", "$domain", "$path", "$protocol", "n", "$options", "x", "lst"))
+            if rng.random() < 0.75:
+                u = rng.choice(URLS19) if rng.random() < 0.8 else rng.choice([x for x in URLS19 if type(x) is str])
+                items.insert(rng.randrange(0, len(items) + 1), ("url", copy.deepcopy(u)))
+        elif which == "simplify_string":
+            items = c19.rand_data(rng, ("app", "title", "name", "n", "extra", "url", "$category", "other", "lst"))
+        else:
+            items = c19.rand_data(rng)
+        d = {}
+        for key, v in items:
+            if not _jsonable(v) or (key == "url" and not url_ok(v)):
+                v = "http://www.b.c/x"
+            d.setdefault(key, v)
+        tpls.append(d)
+        protos.append(d)
+    rows = rows19(tpls, unit=rng.choice([MS, S]))
+    al = rand_alias(rng, [len(rows)], binary=False)
+    al.pop("raw", None)
+    params = {}
+    if which in ("categorize", "tag"):
+        evs = [(None, 0, 0, list(t.items())) for _, _, t in rows]
+        classes = []
+        for _ in range(rng.randrange(0, 6)):
+            rd, _lit = c19.derived_rule(rng, evs) if rng.random() < 0.6 else c19.rand_rule(rng)
+            classes.append([list(rng.choice(c19.CATS)) if which == "categorize" else rng.choice(c19.TAGS), rd])
+        params = {"classes": classes}
+        if which == "categorize":
+            al["share_cats"] = rng.choice([None, "rules", "data", "data"])
+            if al["share_cats"] == "data" and not al.get("share_lists"):
+                al["share_lists"] = "all"
+            if rows and rng.random() < 0.4:      # an existing list value equal to a category of the rules
+                rng.choice(rows)[2][rng.choice(["$category", "lst", "$tags"])] = list(rng.choice(classes)[0]) if classes else ["x"]
+    elif which == "simplify_string":
+        key = rng.choice(["title", "title", "title", "name", "app"])
+        for _, _, t in rows:
+            q = rng.random()
+            if q < 0.85:
+                t[key] = rng.choice(c19.TITLES + c19.VALUES[:4])
+            elif q < 0.92:
+                t[key] = copy.deepcopy(rng.choice(c19.NONSTR))
+            elif q < 0.96:
+                t.pop(key, None)
+        params = {"key": key}
+    return mk_case19(which, rows, params, stream="random", **al)
+
+
+_CL, _SP, _SI = "aw_transform.classify", "aw_transform.split_url_events", "aw_transform.simplify"
+register_fn(Fn("categorize", 20, "C19", 1, _CL, call_classes, enc_classes, ex_annot, or_categorize, gen_classes, "events, classes",
+               codec=Codec19, setup=setup_classes, owned=lambda keys: ["$category"], inplace=True))
+register_fn(Fn("tag", 21, "C19", 1, _CL, call_classes, enc_classes, ex_annot, or_tag, gen_classes, "events, classes",
+               codec=Codec19, setup=setup_classes, owned=lambda keys: ["$tags"], inplace=True))
+register_fn(Fn("split_url_events", 22, "C19", 1, _SP, call_1, enc_split, ex_annot, or_split, gen_split, "events",
+               codec=Codec19, owned=lambda keys: c19.URL_KEYS if "url" in keys else [], inplace=True))
+register_fn(Fn("simplify_string", 23, "C19", 1, _SI, call_key, enc_simplify, ex_none, or_simplify, gen_simplify, "events, key",
+               codec=Codec19))
+
 WHICH, CALLNO, PROP = _tables()
 SCALAR_RESULT = {"sum_durations"}
 
 
 # ---------------------------------------------------------------------------
 # one case on the implementation + the oracle
+
+SIG_MOD = {"C16": "C16:input-modified", "C19": "C19:input-modified-outside-owned"}
+
 
 def run_case(case, env):
     which = case["which"]
@@ -932,20 +1398,24 @@ def run_case(case, env):
     tb = register(b, wk)
     r = Rec()
     r.case, r.which, r.fn, r.built, r.tb, r.wk = case, which, fn, b, tb, wk
-    r.lab = CaseLabels()
+    r.lab = (fn.codec or CaseLabels)()
     r.n_in = len(tb.objs)
     r.arg_locs = [tb.loc(a) for a in b.args]
     r.heap = encode_heap(tb, wk, r.lab)
     r.wire = sx(fn.encode(fn, r, r.lab))
     r.features = alias_features(b, tb, wk)
+    # the data dicts of the listed events: the only objects an annotating function may write (its owned keys)
+    r.listed_data = {tb.loc(dict.get(e, "data")) for a in b.args for e in a
+                     if isinstance(e, env.Event) and tb.loc(dict.get(e, "data")) is not None}
     r.snap = [render(o, tb) for o in tb.objs]
+    r.guard0 = b.guard() if b.guard else None
     r.err, r.out = None, None
     try:
         r.expect = fn.expect(r, env)
     except Exception:  # noqa: BLE001 -- a malformed list: the statement speaks about lists of Events
         r.expect = None
     try:
-        r.out = fn.call(env, fn, b.args, b.params)
+        r.out = fn.call(env, fn, b)
     except Exception as ex:  # noqa: BLE001 -- the class is the observation
         r.err = type(ex).__name__
     wk.add_evlist(r.out)
@@ -954,11 +1424,30 @@ def run_case(case, env):
     return r
 
 
+def _outside_owned(fn, before, after):
+    """the two renderings of a data dict without the keys the function owns (key order and values of the rest)"""
+    owned = set(fn.owned([k for k, _ in before[1]]))
+    return [kv for kv in before[1] if kv[0] not in owned], [kv for kv in after[1] if kv[0] not in owned]
+
+
 def oracle(r, env):
-    """'the inputs are not modified' and 'the result shares exactly this with them' on the implementation; no model involved"""
-    tb, prop, which = r.tb, r.fn.prop, r.which
+    """'the inputs are not modified (outside the keys the function owns)' and 'the result shares exactly this with them'
+    on the implementation; no model involved"""
+    tb, prop, which, fn = r.tb, r.fn.prop, r.which, r.fn
     now = [render(o, tb) for o in tb.objs]
-    changed = [{"object": tb.names[i], "before": r.snap[i], "after": now[i]} for i in range(r.n_in) if now[i] != r.snap[i]]
+    changed, r.written = [], 0
+    for i in range(r.n_in):
+        if now[i] == r.snap[i]:
+            continue
+        if fn.owned and i in r.listed_data and now[i][0] == r.snap[i][0] == "dict":
+            rb, ra = _outside_owned(fn, r.snap[i], now[i])
+            if rb == ra:
+                r.written += 1
+                continue
+            changed.append({"object": tb.names[i], "what": "keys the function does not own changed (or moved)",
+                            "before": r.snap[i], "after": now[i]})
+            continue
+        changed.append({"object": tb.names[i], "before": r.snap[i], "after": now[i]})
     want_p = json.dumps(r.case.get("params") or {}, sort_keys=True)
     try:
         got_p = json.dumps(r.built.params, sort_keys=True)
@@ -966,9 +1455,14 @@ def oracle(r, env):
         got_p = repr(r.built.params)
     if got_p != want_p:
         changed.append({"object": "the parameters (%s)" % r.fn.argdesc, "before": want_p, "after": got_p})
+    if r.built.guard:
+        g = r.built.guard()
+        if g != r.guard0:
+            changed.append({"object": "the rules (%s)" % r.fn.argdesc, "before": r.guard0, "after": g})
     if changed:
-        r.findings.append((prop + ":input-modified",
-                           "%s modified %d of the caller's objects (first: %s)" % (which, len(changed), changed[0]["object"]),
+        r.findings.append((SIG_MOD.get(prop, prop + ":input-modified"),
+                           "%s modified %d of the caller's objects%s (first: %s)" % (
+                               which, len(changed), " outside the keys it owns" if fn.owned else "", changed[0]["object"]),
                            {"changed_objects": changed[:6]}))
     r.shared_out, r.leaves = [], []
     if r.err is not None:
@@ -1028,10 +1522,7 @@ def correspond(r, mo, env):
 
 
 def _cellstr(c, lab):
-    c = relcell(c)
-    if c and c[0] == 2:
-        return "{%s}" % ", ".join("%r: %s" % (lab.key_name(e[0]), lab.val_name(e[2]) if e[1] == 1 else "<object>") for e in c[1])
-    return str(c)
+    return lab.cellstr(c)
 
 
 def _correspond(r, mo, env):
@@ -1040,18 +1531,20 @@ def _correspond(r, mo, env):
         return "the driver could not decode the case (a harness bug): %s" % (mo,)
     if mo[0] == 2:
         return "the model ran out of fuel (implementation: %s)" % (r.err or "returned")
+    roots = []
     if mo[0] == 1:
         if r.err is None:
             return "the model raises %s, the implementation returns" % ERRNAME.get(mo[1], mo[1])
         if ERRCODE.get(r.err, 10) != mo[1]:
             return "the model raises %s, the implementation raises %s" % (ERRNAME.get(mo[1], mo[1]), r.err)
-        return None
-    if mo[0] != 0:
+        # both raised: the input objects as the exception left them against the heap the model reached (an in-place
+        # function) / against the input heap (the others: nothing that existed is ever written)
+        heap2, Lout = (mo[2] if len(mo) > 2 else r.heap), None
+    elif mo[0] != 0:
         return "unreadable model answer %s" % (mo,)
-    if r.err is not None:
+    elif r.err is not None:
         return "the implementation raises %s, the model returns" % r.err
-    roots = []
-    if r.which in SCALAR_RESULT:
+    elif r.which in SCALAR_RESULT:
         if not isinstance(mo[1], int):
             return "the model returned %s where a number was expected" % (mo[1],)
         if not isinstance(r.out, timedelta):
@@ -1067,7 +1560,9 @@ def _correspond(r, mo, env):
     if len(heap2) < r.n_in:
         return "the model's heap shrank"
     for i in range(r.n_in):
-        if heap2[i] != r.heap[i]:
+        # the frame: old cells are as they were, except (annotating functions) the data dicts of the listed events, whose
+        # after-state is compared with the implementation's by the walk below
+        if heap2[i] != r.heap[i] and not (r.fn.owned and i in r.listed_data):
             return "the model changed the input cell %d (%s): %s -> %s (its frame theorem says it cannot)" % (
                 i, tb.names[i], _cellstr(r.heap[i], lab), _cellstr(heap2[i], lab))
     o2l, l2o, keep, queue = {}, {}, [], []
@@ -1105,26 +1600,17 @@ def _correspond(r, mo, env):
         cell = heap2[loc]
         ks_p = wk.kids(obj)
         if obj is None:
-            if cell[0] != 1 or cell[1] != lab.v(None) or cell[-1]:
+            if cell != lab.none_cell():
                 return "%s: model cell %s, the implementation has None" % (path, cell)
         elif isinstance(obj, Event):
+            lab.note_event(obj)
             mine = [0, common.opt(dict.get(obj, "id")), us_of_dt(obj["timestamp"]), us_of_td(obj.duration)]
             if cell[0] != 0 or cell[1:4] != mine[1:]:
                 return "%s: model cell %s, implementation Event (id, ts, dur) = %s" % (path, relcell(cell), relcell(mine))
-        elif isinstance(obj, dict):
-            if cell[0] != 2:
-                return "%s: model cell %s is not a dict, the implementation has the dict %r" % (path, relcell(cell), obj)
-            mine = dict_entries(obj, lab)
-            if cell[1] != mine:
-                return "%s: model dict %s, implementation dict %s (%r)" % (path, _cellstr(cell, lab), _cellstr([2, mine, []], lab), obj)
         else:
-            if cell[0] != 1:
-                return "%s: model cell %s is not a list, the implementation has a list" % (path, relcell(cell))
-            if cell[1] != EVENT_LIST:          # a list VALUE of event data: its == class
-                mine = lab.v(obj)
-                if cell[1] != mine:
-                    return "%s: model list label %d (%s), implementation value %r (label %d)" % (
-                        path, cell[1], lab.val_name(cell[1]), obj, mine)
+            bad = lab.differs(cell, obj, path)
+            if bad:
+                return bad
         ks_m = cell[-1]
         if len(ks_m) != len(ks_p):
             return "%s: the model has %d mutable members here, the implementation %d" % (path, len(ks_m), len(ks_p))
@@ -1214,7 +1700,7 @@ def shrink2(case, fails, max_steps=150):
                 x = copy.deepcopy(c)
                 del x["data"][di][k]
                 yield x
-        for name in ("keys", "vals"):
+        for name in ("keys", "vals", "classes"):
             for j in range(len((c.get("params") or {}).get(name, []))):
                 x = copy.deepcopy(c)
                 del x["params"][name][j]
@@ -1351,7 +1837,8 @@ def _with_model(case, env):
     return r, model_of(r), env
 
 
-N_RANDOM = {"quick": 190, "thorough": 24000}
+N_RANDOM = {"quick": 190, "thorough": 24000}       # per function
+N_RANDOM_GROUP = {"C19": {"quick": 380, "thorough": 36000}}
 
 
 def heap_check(ck, group, have_driver=True, n_random=None):
@@ -1362,7 +1849,7 @@ def heap_check(ck, group, have_driver=True, n_random=None):
     quick = ck.tier == "quick"
     for w in which:
         fn = FUNCS[w]
-        n = n_random if n_random is not None else N_RANDOM["quick" if quick else "thorough"]
+        n = n_random if n_random is not None else N_RANDOM_GROUP.get(fn.prop, N_RANDOM)["quick" if quick else "thorough"]
         cases = list(fn.gen(w, ck.rng, n))
         done_sigs, disagreed, samples = {}, 0, 0
         for lo in range(0, len(cases), 5000):
@@ -1395,6 +1882,11 @@ def heap_check(ck, group, have_driver=True, n_random=None):
                         ck.count("chunk_events_by_key:some run of >= 2 events or a break")
                 if r.findings:
                     _report_findings(ck, r, env, done_sigs)
+                if r.written:
+                    ck.count(w + ":data-dicts-written", r.written)
+                    ck.count(w + ":cases-with-a-write")
+                    if r.err is not None:
+                        ck.count(w + ":raised-after-writing")
                 nontrivial = bool(feats) and (bool(r.out) if w not in SCALAR_RESULT else len(r.built.args[0]) >= 2)
                 ck.note_case([w, r.case["params"], r.case["nested"], r.case["data"], r.case["events"], r.case["lists"],
                               r.case["same_list"]], nontrivial=nontrivial)
@@ -1420,7 +1912,8 @@ def heap_check(ck, group, have_driver=True, n_random=None):
                     ck.disagreement("theap-" + w, "%s on %s" % (bad, json.dumps(describe(rr.case), default=str)[:600]),
                                     replay_obj(rr, {"difference": bad, "wire": rr.wire, "model": _model_view(mo, rr)}))
                 elif samples < 1 and feats and r.out and r.case["stream"] == "corpus" and len(r.case["lists"][0]) >= 3 and \
-                        w in ("merge_events_by_keys", "chunk_events_by_key", "concat", "filter_keyvals", "sort_by_timestamp") and \
+                        w in ("merge_events_by_keys", "chunk_events_by_key", "concat", "filter_keyvals", "sort_by_timestamp",
+                              "categorize", "tag", "split_url_events", "simplify_string") and \
                         (w != "merge_events_by_keys" or any(isinstance(o, list) and o is not r.built.args[0] for o in r.leaves)):
                     samples += 1
                     ck.sample({"function": w, "case": describe(r.case), "aliasing": feats, "implementation": impl_view(r),
@@ -1444,7 +1937,7 @@ def heap_check(ck, group, have_driver=True, n_random=None):
     ]
 
 
-PROPS = ["Props/C16own.v"]
+PROPS = ["Props/C16own.v", "Props/C19own.v"]
 
 
 def main(argv=None):
